@@ -149,6 +149,11 @@ fn edits_for(base: &Value, rng: &mut Rng, thorough: bool) -> Vec<FileEdit> {
         let mut v = base.clone();
         v["public_input"]["public_memory"][i]["page"] = json!(1);
         push("public_memory page", format!("public_memory[{i}] moved to page 1 (not representable: the CLI drops continuous pages)"), Mark::Malformed, v);
+        for key in ["page", "address", "value"] {
+            let mut v = base.clone();
+            v["public_input"]["public_memory"][i].as_object_mut().unwrap().remove(key);
+            push("public_memory key removed", format!("public_memory[{i}] without its `{key}` key"), Mark::Malformed, v);
+        }
         let mut v = base.clone();
         v["public_input"]["public_memory"].as_array_mut().unwrap().remove(i);
         push("public_memory removed", format!("public_memory[{i}] removed"), Mark::WellFormed, v);
@@ -194,6 +199,19 @@ fn edits_for(base: &Value, rng: &mut Rng, thorough: bool) -> Vec<FileEdit> {
             let x = v["public_input"]["dynamic_params"].as_object_mut().unwrap().remove(&k).unwrap();
             v["public_input"]["dynamic_params"]["zzz_unknown_param"] = x;
             push("dynamic_params renamed", format!("dynamic_params.{k} renamed to an unknown name"), Mark::Malformed, v);
+        }
+        // every parameter gets a value of its own: each verifier field must receive ITS file value
+        {
+            let mut v = base.clone();
+            for (j, k) in keys.iter().enumerate() {
+                v["public_input"]["dynamic_params"][k] = json!(1000 + j as u64);
+            }
+            push("dynamic_params all distinct", "every dynamic parameter set to 1000 + its position".into(), Mark::WellFormed, v);
+            let mut v = base.clone();
+            for (j, k) in keys.iter().enumerate() {
+                v["public_input"]["dynamic_params"][k] = json!(5000 - 3 * j as u64);
+            }
+            push("dynamic_params all distinct", "every dynamic parameter set to 5000 - 3 * its position".into(), Mark::WellFormed, v);
         }
         let mut v = base.clone();
         v["public_input"]["dynamic_params"]["extra_param"] = json!(1);
